@@ -286,6 +286,8 @@ class Flow:
         for evs, out in self._stmt(fn['body'], ctx):
             if out in ('break', 'continue'):
                 raise AnalysisBroken('break/continue outside loop in ' + fn['name'])
+            if getattr(self, 'path_filter', None) is not None and not self.path_filter(evs):
+                continue
             res.append((evs, out))
             if len(res) > MAX_PATHS:
                 raise AnalysisBroken('path cap exceeded in ' + fn['name'])
